@@ -56,10 +56,15 @@ pub struct RecSpec {
 }
 
 pub fn record(spec: RecSpec) -> Enr {
+    try_record(spec).expect("enr build")
+}
+
+/// `None` if the record would exceed the 300-byte limit.
+pub fn try_record(spec: RecSpec) -> Option<Enr> {
     static C: OnceLock<Mutex<HashMap<RecSpec, Enr>>> = OnceLock::new();
     let c = C.get_or_init(|| Mutex::new(HashMap::new()));
     if let Some(e) = c.lock().unwrap().get(&spec) {
-        return e.clone();
+        return Some(e.clone());
     }
     let key = pool()[spec.ident].key();
     // ENR signing draws from OsRng: give it a stream that depends on the spec only
@@ -70,7 +75,7 @@ pub fn record(spec: RecSpec) -> Enr {
     crate::interpose::with_rng(stream, || build_record(spec, &key, c))
 }
 
-fn build_record(spec: RecSpec, key: &CombinedKey, c: &Mutex<HashMap<RecSpec, Enr>>) -> Enr {
+fn build_record(spec: RecSpec, key: &CombinedKey, c: &Mutex<HashMap<RecSpec, Enr>>) -> Option<Enr> {
     let mut b = Enr::builder();
     b.seq(spec.seq);
     if let Some((ip, port)) = spec.ip4 {
@@ -85,11 +90,11 @@ fn build_record(spec: RecSpec, key: &CombinedKey, c: &Mutex<HashMap<RecSpec, Enr
         let bytes: Vec<u8> = (0..spec.pad).map(|i| (i % 251) as u8).collect();
         b.add_value("pad", &bytes.as_slice());
     }
-    let enr = b.build(key).expect("enr build");
+    let enr = b.build(key).ok()?;
     let mut g = c.lock().unwrap();
     if g.len() > 200_000 {
         g.clear();
     }
     g.insert(spec, enr.clone());
-    enr
+    Some(enr)
 }
